@@ -352,8 +352,7 @@ def main(argv):
     if ok_h and cfg.get("race"):
         race_info = run_race(cfg["race"], seed, 40 if tier == "thorough" else 6, log)
         if race_info.get("data_race") or race_info.get("mismatches"):
-            p = write_replay(pid, "race", race_info)
-            print("VIOLATION property=%s replay=%s" % (pid, os.path.relpath(p, VERIF)))
+            race_replay = write_replay(pid, "race", race_info)
             race_fail = True
         else:
             race_fail = False
@@ -434,7 +433,15 @@ def main(argv):
         status = 1
 
     if race_fail:
+        # the race run is a concrete failing schedule: it is the replay, whatever else broke
+        out_lines = [l for l in out_lines if not l.startswith("VIOLATION")]
+        out_lines.append("VIOLATION property=%s replay=%s" % (pid, os.path.relpath(race_replay, VERIF)))
         status = 1
+    vio = [l for l in out_lines if l.startswith("VIOLATION")]
+    if len(vio) > 1:
+        concrete = [l for l in vio if not l.endswith("no-failing-input-found")]
+        keep = (concrete or vio)[0]
+        out_lines = [l for l in out_lines if not l.startswith("VIOLATION")] + [keep]
     wall = time.time() - t0
     n_thm = len(thms)
     n_gen_obl = len(cfg.get("generated_obligations", []))
